@@ -23,7 +23,9 @@ def py_splice(tgt, eff, pls):
 def run(R):
     if not R.build():
         return
-    R.lean(["C14"])
+    R.lean(["C14", "C03Loop"])
+    import hunted
+    hunted.run(R, "C14")
     quick = R.tier == "quick"
     rng = R.rng
     # reader tie: bytes -> lines, and the read/write round trip on the implementation
